@@ -147,17 +147,22 @@ def make_runner(mode, nodes, ctx0, d):
     from semantiva.pipeline import Pipeline, Payload
     from semantiva.context_processors import ContextType
     from semantiva.data_types import NoDataType
+    def guarded(fn):
+        try:
+            fn()
+        except Exception:          # a failing configuration is repeated just like a succeeding one
+            pass
     if mode == "reused":
         pipe = Pipeline(copy.deepcopy(nodes))
 
         def run_k(k):
             for _ in range(k):
-                pipe.process(Payload(NoDataType(), ContextType(copy.deepcopy(ctx0))))
+                guarded(lambda: pipe.process(Payload(NoDataType(), ContextType(copy.deepcopy(ctx0)))))
         return run_k, [pipe.transport], lambda: None
     if mode == "fresh":
         def run_k(k):
             for _ in range(k):
-                Pipeline(copy.deepcopy(nodes)).process(Payload(NoDataType(), ContextType(copy.deepcopy(ctx0))))
+                guarded(lambda: Pipeline(copy.deepcopy(nodes)).process(Payload(NoDataType(), ContextType(copy.deepcopy(ctx0)))))
         return run_k, [], lambda: None
     if mode == "run-space":
         def run_k(k):
@@ -190,8 +195,13 @@ def make_runner(mode, nodes, ctx0, d):
         def run_k(k):
             futs = [orch.enqueue(copy.deepcopy(nodes), context=ContextType(copy.deepcopy(ctx0)), return_future=True) for _ in range(k)]
             for f in futs:
-                f.result(timeout=60)
-            del futs
+                try:
+                    f.result(timeout=60)
+                except Exception as exc:
+                    if isinstance(exc, TimeoutError):
+                        raise
+            del futs, f
+        run_k.extra_registries = lambda: {"queue.pending_futures": len(orch.pending_futures), "queue.job_queue": orch.job_queue.qsize()}
 
         def close():
             stop.set()
@@ -207,6 +217,7 @@ def measure(mode, nodes, ctx0, counts, d):
     try:
         run_k(2)                                   # warm-up
         base = snapshot()
+        base["reg"].update(getattr(run_k, "extra_registries", lambda: {})())
         base_n = len(gc.get_objects())
         done, samples = 0, []
         for n in counts:
@@ -214,6 +225,7 @@ def measure(mode, nodes, ctx0, counts, d):
             done = n
             collect()
             reg = registries()
+            reg.update(getattr(run_k, "extra_registries", lambda: {})())
             att = attribute_growth(base, transports)
             chans = sum(len(getattr(t, "_queues", {})) for t in transports)
             msgs = sum(len(q[0]) for t in transports for q in getattr(t, "_queues", {}).values())
@@ -307,13 +319,26 @@ def translate():
 
 
 def generated_names(nodes, ctx0):
-    """Names of the component classes one execution registers."""
+    """Names of the component classes one execution registers (a failing configuration still constructs all its nodes)."""
     from semantiva.pipeline import Pipeline, Payload
     from semantiva.context_processors import ContextType
     from semantiva.data_types import NoDataType
-    Pipeline(copy.deepcopy(nodes)).process(Payload(NoDataType(), ContextType(copy.deepcopy(ctx0))))
+
+    def once():
+        try:
+            Pipeline(copy.deepcopy(nodes)).process(Payload(NoDataType(), ContextType(copy.deepcopy(ctx0))))
+        except Exception:
+            pass
+    once()
+    collect()
     before = {id(c) for c in component_classes()}
-    Pipeline(copy.deepcopy(nodes)).process(Payload(NoDataType(), ContextType(copy.deepcopy(ctx0))))
+    keep = []
+    try:
+        p = Pipeline(copy.deepcopy(nodes))
+        keep.append(p)
+        p.process(Payload(NoDataType(), ContextType(copy.deepcopy(ctx0))))
+    except Exception:
+        pass
     return [c.__name__ for c in component_classes() if id(c) not in before]
 
 
@@ -347,8 +372,15 @@ def run(tier: str) -> int:
         if any(n["processor"] in ("TSink", "TPayloadSink") and "path" not in (n.get("parameters") or {}) for n in nodes):
             continue
         stats["pipelines"] += 1
+        variants = [(nodes, False)]
+        if stats["pipelines"] % 2 == 1:
+            variants.append((nodes + [{"processor": "TFail"}] if pipegen.run_real(nodes + [{"processor": "TFail"}], ctx0)["cls"] == ("proc", "proc")
+                             else [{"processor": "TSourceDef"}, {"processor": "TFail"}], True))
         with rt.tempdir() as d:
-            for mode in ("reused", "fresh", "run-space", "queue"):
+            for (nodes, failing), mode in [(v, m) for v in variants for m in ("reused", "fresh", "run-space", "queue")]:
+                if failing and mode == "run-space":
+                    continue          # a launch stops at its first failing run: nothing is repeated
+                stats["failing_variants"] = stats.get("failing_variants", 0) + (1 if failing else 0)
                 try:
                     s = measure(mode, nodes, ctx0, counts, d)
                 except Exception as exc:  # noqa: BLE001
@@ -358,7 +390,7 @@ def run(tier: str) -> int:
                 stats["modes"][mode] = stats["modes"].get(mode, 0) + 1
                 stats["runs"] += counts[-1] + 2
                 gen = generated_names(nodes, ctx0)
-                for sig, what, det in judge(mode, s, generated_per_run=len(gen), nodes_per_run=len(nodes)):
+                for sig, what, det in judge(mode, s, generated_per_run=len(gen), nodes_per_run=len(nodes) - (1 if failing else 0)):
                     rep.add_violation(sig, what, {"nodes": nodes, "initial_context": ctx0, "finding": det})
                 if len(samples_out) < 4:
                     samples_out.append({"mode": mode, "nodes": [n["processor"] for n in nodes], "samples": s})
